@@ -54,6 +54,18 @@ Theorem C12_reachable_invariant : forall s, reachable s -> wf s /\ Inv s.
 Proof. intros s R. exact (conj (reachable_wf s R) (reachable_Inv s R)). Qed.
 Print Assumptions C12_reachable_invariant.
 
+(* ... and so is every intermediate state of a history (what the correspondence
+   check observes step by step), with the frame of the initial state *)
+Theorem C12_every_intermediate_state : forall ops s, wf s ->
+  Forall (fun r => wf (snd r) /\ frame s (snd r)) (trace VXR s ops).
+Proof. exact trace_wf. Qed.
+Print Assumptions C12_every_intermediate_state.
+
+Theorem C12_trace_ends_in_run : forall {T} (V : VOps T) ops s,
+  run V s ops = last (map snd (trace V s ops)) s.
+Proof. exact @trace_last. Qed.
+Print Assumptions C12_trace_ends_in_run.
+
 (* an accepted assignment stores the value itself when it is inside the
    bounds, else the bound it passed *)
 Theorem C12_stored_value_is_the_clip : forall x lo hi, xle lo hi -> x <> XNan ->
@@ -264,7 +276,7 @@ Theorem C12_dict_roundtrip_is_clone : forall {T} (V : VOps T) s, lengths_ok s ->
 Proof. exact @from_dict_to_dict_clone. Qed.
 Print Assumptions C12_dict_roundtrip_is_clone.
 
-(* pinned code (before 3f87067, c7b69a2, 32d3102): the statement is false *)
+(* pinned code (before a7f3c3c, 6795b74, 2dbf2e6): the statement is false *)
 Theorem C12_clone_reproduces_state_refuted :
   exists s, reachable s /\ clone_old VXR s <> Some s.
 Proof. exact clone_old_refuted. Qed.
